@@ -231,9 +231,13 @@ def _fc_inv(A, S, n):
 
 
 def _written(E, env):
-    """the cell written in this iteration of loop 2 (None outside it)"""
+    """the cell written in this iteration of loop 2.  Only asked for when the array has changed since the loop head; if the local that
+    holds the position has been renamed the annotation no longer applies: the function leaves the verified subset (undecided), it does
+    not fail obligations"""
     v = env.get("index_in_A")
-    return None if v is None else (v.t if isinstance(v, SV) else E.to_sv(v).t)
+    if v is None:
+        raise Unsupported("PiPtr._Enc: the local `index_in_A` named by the array invariants does not exist (renamed?)")
+    return v.t if isinstance(v, SV) else E.to_sv(v).t
 
 
 def _note_assumed(E, tag, q):
@@ -254,10 +258,12 @@ def same_except_step(E, env):
     """loop 2 only: the array after this iteration's store differs from the array at the loop head in the written cell only"""
     if E.spec_role == "assume":
         E._pp_head = _A_term(E, env)
+        _note_assumed(E, "_pp_mark", E.fresh("loop2_head", TBool).t)     # marks "this path is inside loop 2, after this head"
         return True
-    head, A, p0 = getattr(E, "_pp_head", None), _A_term(E, env), _written(E, env)
-    if head is None or p0 is None or head.eq(A):
+    head, A = getattr(E, "_pp_head", None), _A_term(E, env)
+    if _assumed(E, "_pp_mark") is None or head is None or head.eq(A):
         return True
+    p0 = _written(E, env)
     j0 = E.fresh("any_j", TInt).t
     E.generalised = same_except(head, A, p0)
     return SV(And(Len(A) == Len(head), Imp(And(0 <= j0, j0 < Len(head), j0 != p0), A[j0] == head[j0])), TBool)
@@ -328,8 +334,9 @@ def a_inv_at(kidx_src):
         q = _assumed(E, "_pp_ainv")
         if q is not None:
             E.assume(z3.substitute_vars(q.body(), w0))     # the instance of the assumed invariant at this keyword
-            head, p0 = E._pp_ainv_A, _written(E, env)
-            if p0 is not None and not head.eq(A):
+            head = E._pp_ainv_A
+            if not head.eq(A):
+                p0 = _written(E, env)
                 _pinst(E, "blocks_ok_store", [head, A, S, alen - 2 - blocks_upto(DB, _kpD(DB, w0), B), prf(SHA1, out, K, z3.Concat(B02, w0)),
                                               part(db_list(DB, w0), B, B * idsz), nblk(DB, w0, B), p0])
         cur = getattr(E, "_pp_cur", None)
@@ -369,9 +376,9 @@ def cur_blocks_at(E, env):
         E._pp_head2 = A
         E._pp_cur = (A, S, top, K2, fibl, it)
     else:
-        head, p0 = getattr(E, "_pp_head2", None), _written(E, env)
-        if head is not None and p0 is not None and not head.eq(A):
-            _pinst(E, "blocks_ok_store", [head, A, S, top, K2, fibl, it - 1, p0])
+        head = getattr(E, "_pp_head2", None)
+        if _assumed(E, "_pp_mark") is not None and head is not None and not head.eq(A):
+            _pinst(E, "blocks_ok_store", [head, A, S, top, K2, fibl, it - 1, _written(E, env)])
     return SV(blocks_ok(A, S, top, K2, fibl, it), TBool)
 
 
